@@ -13,7 +13,10 @@ LEVEL = "exploration"
 RULE = ("random filter definitions with 1-3 sensors x 1-4 readings (unequal per-reading noise, "
         "string keys in shuffled insertion order or Symbol keys, calibration in h, unobserved states) "
         "x SPD priors (cond<=1e6, cond(S)<=1e4) x readings z = h(x) + S^(1/2) n with |n| in "
-        "{0, 0.1, 1, 3} and exact z = h(x); filtering disabled or k in {2,5}; every observed "
+        "{0, 0.1, 1, 3}, exact z = h(x), and the Reading object returned by SensorModel.model(truth) used as "
+        "the measurement; per-reading variances 1e-9..1e4; priors also as int64/float32 arrays; readings by "
+        "keyword, as data column, calls by keyword; a sibling filter with the same sensor names built "
+        "afterwards; earlier results re-checked after later calls; filtering disabled or k in {2,5}; every observed "
         "sensor_model call (direct, via ManagedFilter.tick, via adapter.transform) is checked against "
         "the numpy Kalman reference incl. recorded innovation and S; non-trivial = sensor with >=2 "
         "readings; distinct = sha256 of canonical definition + kind")
